@@ -6,6 +6,11 @@ props = [json.loads(l)["id"] for l in open(os.path.join(ROOT, "properties.jsonl"
 
 # id -> (category, technique, level text, level note, design ref)
 CHECKS = {
+ "C06": ("exploration",
+         "runtime monitor: tag -> connection attribution at a recording backend under N concurrent clients with pairwise different ClientHellos and HTTP/2 preambles + race detector",
+         "Rounds of 96-200 concurrent clients (utls specs made pairwise different by a unique extension id; unique SETTINGS value / WINDOW_UPDATE per h2 connection), half h2 with multiplexed bursts and half HTTP/1.1 keep-alive, from 127.0.0.1-8, with chopped handshake delivery, idle periods and early disconnects; every backend record must carry exactly the JA3/JA4 (references of the bytes that client wrote) and an admissible HTTP/2 fingerprint (reference of that client's frame history) of the connection the tagged request was sent on; a value that belongs to another connection of the round is reported as such. Race detector on. Held on the interleavings produced.",
+         "trusted: internal/hello and internal/ref references, recording backend; requests cut by the client before a response are not judged",
+         "DESIGN.md §4 C06"),
  "C03": ("exploration",
          "runtime monitor: Akamai-string reference over the client's exact frame history (raw-frame peer on the independent x/net v0.19.0 framer over real TLS) judged at a recording backend, for every priority-frame limit incl. the flag wiring and the library default, race detector on",
          "A scripted raw-frame client writes random legal histories (SETTINGS with known/unknown ids, SETTINGS ACK, WINDOW_UPDATEs, PRIORITY on idle/closed streams, HEADERS with/without priority, all 24 pseudo-header orders, CONTINUATION splits, 1-6 requests) and every request's X-HTTP2-Fingerprint at the backend must equal the reference string of an admissible history prefix; proxies are built through the real flag wiring with -max-h2-priority-frames 0,1,2,3,5,default and through library composition (unlimited). HTTP/1.1 connections must produce no HTTP/2 fingerprint. Held on the histories produced.",
